@@ -84,4 +84,19 @@ theorem decodedCap_ge : ∀ n, n ≤ decodedCap n
     · omega
     · simp only [growOnce]; split <;> omega
 
+/-- encoding/json leaves a list of n ≥ 1 elements in a slice whose capacity is the smallest power of two ≥ n -/
+theorem decodedCap_pow2 : ∀ n, 0 < n → ∃ k, decodedCap n = 2 ^ k ∧ n ≤ 2 ^ k ∧ 2 ^ k < 2 * n
+  | 0, h => absurd h (by omega)
+  | 1, _ => ⟨0, by decide, by decide, by decide⟩
+  | n + 2, _ => by
+    obtain ⟨k, hk, h1, h2⟩ := decodedCap_pow2 (n + 1) (by omega)
+    have hstep : decodedCap (n + 2) = if n + 1 < decodedCap (n + 1) then decodedCap (n + 1) else growOnce (decodedCap (n + 1)) := rfl
+    rw [hstep, hk]
+    by_cases hlt : n + 1 < 2 ^ k
+    · exact ⟨k, by simp [hlt], by omega, by omega⟩
+    · refine ⟨k + 1, ?_, ?_, ?_⟩
+      · simp [hlt, growOnce, Nat.pow_succ, Nat.mul_comm]
+      · rw [Nat.pow_succ]; omega
+      · rw [Nat.pow_succ]; omega
+
 end KinModel.Conc
